@@ -16,6 +16,8 @@ use std::time::{Duration, Instant};
 use vh::vcore::*;
 use vh::vnode::*;
 
+mod part_b;
+
 const SCHEMA: &str = "CREATE TABLE t (id INTEGER PRIMARY KEY NOT NULL, a TEXT NOT NULL DEFAULT '', b TEXT);
 CREATE TABLE u (k1 INTEGER NOT NULL, k2 TEXT NOT NULL, x TEXT, PRIMARY KEY (k1, k2));";
 
@@ -341,6 +343,9 @@ fn part_a(rep: &Report, tier: Tier, deadline: Instant) -> (u64, Option<String>) 
 }
 
 fn main() {
+    if std::env::args().any(|a| a == "--reader") {
+        part_b::reader_main();
+    }
     let cli = parse_cli();
     let rep = Report::new("C19", cli.tier, cli.seed);
     sweep_stale_scratch();
@@ -349,6 +354,18 @@ fn main() {
     }
     if let Some(p) = &cli.replay {
         let r = load_replay(p);
+        if r["part"] == "B" {
+            part_b::install_handler();
+            let t = part_b::build_templates();
+            let case: part_b::CaseB = serde_json::from_value(r["case"].clone()).unwrap();
+            let s = Scratch::new("c19b_replay");
+            let (out, _rd) = part_b::run_case_b(&t, &case, part_b::Reader::spawn(), s.path());
+            println!("restore points reached: {:?}\nrestore ok: {}", out.points, out.restore_ok);
+            for (k, d) in &out.violations {
+                println!("reproduced {k}: {d}");
+            }
+            std::process::exit(if out.violations.is_empty() { 0 } else { 1 });
+        }
         let case: CaseA = serde_json::from_value(r["case"].clone()).unwrap();
         let v = run_case_a(&case);
         for (k, d) in &v {
@@ -356,12 +373,18 @@ fn main() {
         }
         std::process::exit(if v.is_empty() { 0 } else { 1 });
     }
-    let deadline = Instant::now() + Duration::from_secs(cli.tier.pick(50, 1200));
-    let (n, cap) = part_a(&rep, cli.tier, deadline);
-    rep.set("states", n);
-    rep.set("transitions", n);
-    rep.set("evaluations", n);
-    rep.set("traces_validated_against_impl", n);
+    let deadline = Instant::now() + Duration::from_secs(cli.tier.pick(25, 900));
+    let (n, mut cap) = part_a(&rep, cli.tier, deadline);
+    let b = part_b::part_b(&rep, cli.tier, Instant::now() + Duration::from_secs(cli.tier.pick(30, 900)));
+    let nb = b["schedules"].as_u64().unwrap_or(0);
+    if b["not_run_time_cap"].as_u64().unwrap_or(0) > 0 {
+        cap = cap.or(Some(format!("part B: {} of {} schedules not run (wall-clock cap)", b["not_run_time_cap"], b["schedules_total"])));
+    }
+    rep.set("states", n + nb);
+    rep.set("transitions", n + b["steps"].as_u64().unwrap_or(0));
+    rep.set("evaluations", n + nb);
+    rep.set("traces_validated_against_impl", n + nb);
+    rep.set("part_b", b);
     rep.set("exhaustive", cap.is_none());
     if let Some(c) = cap {
         rep.set("cap_hit", c);
@@ -369,7 +392,8 @@ fn main() {
     rep.set("bounds", json!({"sources": cli.tier.pick(vec!["mixed"], vec!["own", "mixed", "mixed+rollback-journal"]), "destinations": ["absent", "empty file", "smaller db", "larger db", "WAL with un-checkpointed frames"],
         "flags": ["none", "--self-actor-id", "--actor-id known", "--actor-id unknown"]}));
     rep.assume("part A runs the built corrosion binary (rebuilt from /repo by bin/check); authorship is compared through clock tables joined with crsql_site_id, independent of ordinals");
-    rep.assume("part B (a reader in another process while restore runs) is covered by the gated run in thorough tier only if listed in evidence.part_b");
+    rep.assume("part B: sqlite3_restore::restore runs in the harness process and is stopped at the hook points between its steps (after every lock it takes, after lock_all, journal removal, before the copy, after the copy, after the wal-index reset); the reader is a child process executing open / begin+first read / read-all+integrity_check / commit one step at a time; the bulk copy is one kernel call, its half-done state is injected (first half of the new image written over the old file) while the restore is parked right before it");
+    rep.assume("part B: a reader step that fails with SQLITE_BUSY / LOCKED / PROTOCOL / CANTOPEN is 'refused'; a step failing with a corruption error is counted in the evidence and not judged (the statement speaks of reads that succeed)");
     rep.require_nontrivial(10, "every grid cell (source x destination x flags) is a distinct non-trivial case");
     rep.finish();
 }
